@@ -80,10 +80,61 @@ def check(name, props, tier):
     json.dump(meta, open(f"{d}/meta.json", "w"), indent=1)
 
 
-if __name__ == "__main__":
+if __name__ == "__main__" and sys.argv[1] != "matrix":
     if sys.argv[1] == "verify":
         verify(sys.argv[2], sys.argv[3])
     else:
         args = [a for a in sys.argv[3:] if not a.startswith("--")]
         tier = "thorough" if "--thorough" in sys.argv else "quick"
         check(sys.argv[2], args or [sys.argv[2].split("-")[0]], tier)
+
+
+def matrix(names, extra_props=None):
+    """re-confirm every stored change on the current /repo HEAD (scratch worktree) and run its property's quick check on it"""
+    import glob
+    names = names or sorted(os.path.basename(d) for d in glob.glob(f"{SEEDED}/C*-*"))
+    for name in names:
+        d = f"{SEEDED}/{name}"
+        prop = name.split("-")[0]
+        wt = f"/tmp/mx-{name}"
+        sh(f"git -C /repo worktree remove --force {wt}")
+        rc, o = sh(f"git -C /repo worktree add -q --detach {wt} HEAD")
+        if rc != 0:
+            print(name, "worktree failed", o)
+            continue
+        meta = json.load(open(f"{d}/meta.json"))
+        try:
+            env = {"PYTHONPATH": wt}
+            rc, o = sh(f"/venv/bin/python {d}/demo.py", cwd=wt, env=env)
+            clean_ok = rc == 0
+            rc, o = sh(f"git apply {d}/patch.diff", cwd=wt)
+            if rc != 0:
+                print(f"{name}: PATCH DOES NOT APPLY on HEAD: {o[:200]}")
+                meta["applies_on_head"] = False
+                json.dump(meta, open(f"{d}/meta.json", "w"), indent=1)
+                continue
+            rc, o = sh("/venv/bin/python -m pytest -q -p no:cacheprovider -n 8 -x", cwd=wt, env=env)
+            tests_ok = rc == 0
+            rc, o = sh(f"/venv/bin/python {d}/demo.py", cwd=wt, env=env)
+            demo_fails = rc != 0
+            res = {}
+            for p in [prop] + list(extra_props or []):
+                outdir = f"/tmp/mx-{name}.out"
+                rc, o = sh(f"./vf {p} quick", cwd="/verif", env={"VF_REPO": wt, "VF_OUT": outdir}, timeout=7200)
+                viol = [l for l in o.splitlines() if l.startswith("  detail")]
+                res[p] = {"exit": rc, "first": viol[0][:300] if viol else ""}
+                shutil.rmtree(outdir, ignore_errors=True)
+            meta.update({"applies_on_head": True, "reconfirmed_on_head": {"demo_passes_without_change": clean_ok, "suite_passes_with_change": tests_ok,
+                                                                          "demo_fails_with_change": demo_fails,
+                                                                          "head": sh("git -C /repo log --format=%h -1")[1].strip()},
+                         "detected_by_quick": {p: ("VIOLATION" if r["exit"] == 1 else f"exit {r['exit']}") for p, r in res.items()},
+                         "first_violation": {p: r["first"] for p, r in res.items()}})
+            json.dump(meta, open(f"{d}/meta.json", "w"), indent=1)
+            print(f"{name}: clean_demo_ok={clean_ok} tests_ok={tests_ok} demo_fails={demo_fails} -> " +
+                  ", ".join(f"{p}:{'CAUGHT' if r['exit'] == 1 else 'exit %d' % r['exit']}" for p, r in res.items()), flush=True)
+        finally:
+            sh(f"git -C /repo worktree remove --force {wt}")
+
+
+if __name__ == "__main__" and len(sys.argv) > 1 and sys.argv[1] == "matrix":
+    matrix(sys.argv[2:])
